@@ -564,8 +564,8 @@ def c_maxlen_init(node, fname):
         if isinstance(n, ast.Name) and n.id == 'maxlen':
             return 'maxlen'
         err(n, 'unsupported maxlen expression: ' + ast.unparse(n), fname)
-    if isinstance(node, ast.Name) and node.id == 'maxlen':
-        return 'maxlen'
+    # a bare `maxlen` is NOT accepted: Python's None would reach the `len(...) > self._maxlen` comparisons (TypeError),
+    # whereas None in the model stands for float('inf')
     if isinstance(node, ast.IfExp):
         test = Expr({'maxlen': ('maxlen', 'optZ')}, fname).boolean(node.test)
         return '(if %s then %s else %s)' % (test, branch(node.body), branch(node.orelse))
